@@ -225,6 +225,20 @@ class Explorer:
 # runtimes
 # -----------------------------------------------------------------------------------------------------
 
+def conn_serial(ex, conn):
+    """a stable identity for a connection object (id() is reused once an object has been collected, which made the signature of a
+    finding depend on the allocator)"""
+    n = getattr(conn, "_verif_serial", None)
+    if n is None:
+        ex._serials = getattr(ex, "_serials", 0) + 1
+        n = ex._serials
+        try:
+            conn._verif_serial = n
+        except Exception:  # noqa
+            n = id(conn)
+    return n
+
+
 def make_vloop():
     import asyncio
 
@@ -393,7 +407,7 @@ async def random_schedule(ex, spawn, settle):
             p.server_closed = True
             ex.trace.append(("srvclose", ex.peers.index(p)))
         await settle()
-        ex.steplog.append(({c.idx for c in ex.callers if c.state == "done"}, [id(c) for c in ex.pool.connections]))
+        ex.steplog.append(({c.idx for c in ex.callers if c.state == "done"}, [conn_serial(ex, c) for c in ex.pool.connections]))
         ex.check_quiescent(len(ex.trace))
         if not to_spawn and all(c.state == "done" for c in ex.callers):
             break
@@ -577,7 +591,7 @@ def signature_of(clause, detail, cfg, ex):
         snap = detail.get("snapshot", {})
         sig["conn_states"] = sorted(set(state_of(i) for i in snap.get("conns", [])))
         # how many callers left in the very step in which the orphaned connection appeared in the pool?
-        limbo_ids = [id(c) for c in ex.pool.connections if not (c.is_idle() or c.is_closed() or c.has_expired())]
+        limbo_ids = [conn_serial(ex, c) for c in ex.pool.connections if not (c.is_idle() or c.is_closed() or c.has_expired())]
         exits = None
         for lid in limbo_ids:
             prev_done, prev_ids = set(), []
